@@ -161,6 +161,26 @@ def run_property(prop, cfg, tier, seed, jobs, work, rebaseline=False, only=None)
                 if not good:
                     undecided.append('canary: %s verifies `ensures false` (%s): vacuous precondition or assumption leak' % (c, st))
             log('-- canaries %s: %d/%d failed as expected' % (key, sum(1 for c in canary_report if c['failed_as_expected']), len(canary_report)))
+        # lemma canaries (thorough): `false` added to the ensures of each proof lemma that has a precondition must fail
+        if tier == 'thorough' and not only and not failures and not undecided:
+            lem = [u for u in units if u in D.proof_fns_with_requires(br.text)]
+            def one_lemma_canary(name):
+                txt = D.lemma_canary_text(br.text, name)
+                if txt is None:
+                    return name, None
+                pth = os.path.join(work, '%s__lemcanary_%s.rs' % (key, name))
+                open(pth, 'w').write(txt)
+                return name, V.run_unit(pth, work, name, 10, seed=seed)
+            from concurrent.futures import ThreadPoolExecutor as _TPE
+            with _TPE(max_workers=jobs) as ex:
+                for name, r_ in ex.map(one_lemma_canary, lem):
+                    if r_ is None:
+                        continue
+                    good = r_['status'] in ('fail', 'rlimit', 'timeout')
+                    canary_report.append({'unit': name, 'status': r_['status'], 'failed_as_expected': good, 'kind': 'lemma'})
+                    if not good:
+                        undecided.append('canary: lemma %s proves `false` (%s): contradictory precondition' % (name, r_['status']))
+            log('-- lemma canaries %s: %d checked' % (key, len(lem)))
         # samples of actual obligations
         for cl in br.g.clauses.items:
             if cl['kind'] in ('ensures',) and len(samples) < 6 and (not cl['tags'] or prop in cl['tags']):
@@ -196,7 +216,7 @@ def run_property(prop, cfg, tier, seed, jobs, work, rebaseline=False, only=None)
     # ---------------- failures -> replay ----------------
     violations = []
     known_lines = []
-    if failures and not undecided:
+    if failures:
         from . import hunter
         known = D.load_known_findings()
         # one VIOLATION per distinct obligation; hunter bound to the failed obligation
@@ -291,6 +311,7 @@ def run_property(prop, cfg, tier, seed, jobs, work, rebaseline=False, only=None)
     if undecided:
         for u in undecided[:10]:
             log('UNDECIDED-DETAIL ' + ' '.join(u.split())[:500])
+    if undecided and not violations:
         print('UNDECIDED property=%s reason=%s' % (prop, ' '.join(undecided[0].split())[:300]))
         return 2
     if violations:
